@@ -726,7 +726,7 @@ class Gen:
 
     # --- statements
     def stmt(self, d):
-        c = self.r.below(30)
+        c = self.r.below(31)
         if c < 6 or not self.vars["int"]:
             n = self.fresh("int") if (not self.vars["int"] or self.chance(1, 2)) else self.pick(self.vars["int"])
             e = ("assign", n, None, self.int_expr(d))
@@ -806,6 +806,39 @@ class Gen:
                     [("if", [(("cmp", ("id", i), [(">", ("int", 1 + self.r.below(3)))]), ("block", [("break", self.int_expr(1))]))], None)])
             self.declare(y, "int")
             return ("block", [("assign", i, None, ("int", 0)), ("assign", y, None, ("loop", body))])
+        if c == 27 and d > 0:
+            # a loop used as a value: last body value / null when it never runs / null after continue,
+            # assigned to a fresh variable or to an existing (non-null) one that the loop does not mention
+            tgt = self.fresh("any") if (self.chance(1, 2) or not self.vars["int"]) else self.pick(self.vars["int"])
+            x = self.fresh("int")
+            n_iter = self.pick([0, 0, 1, 3])
+            kind = self.r.below(4)
+            saved = {k: [v for v in vs if v != tgt] for k, vs in self.vars.items()}
+            keep = self.vars
+            self.vars = {k: list(v) for k, v in saved.items()}
+            self.vars["int"].append(x)
+            bodyval = self.int_expr(1)
+            self.vars = keep
+            body = ("block", [bodyval])
+            if self.chance(1, 4):
+                body = ("block", [("if", [(("cmp", ("id", x), [("==", ("int", n_iter - 1))]), ("block", [("continue",)]))], None), bodyval])
+            if kind == 0:
+                it = ("range", ("int", 0), ("int", n_iter), False)
+                loop = ("for", [("tid", x, None)], it, body)
+                pre = []
+            elif kind == 1:
+                loop = ("for", [("tid", x, None)], ("list", [("int", i) for i in range(n_iter)]), body)
+                pre = []
+            else:
+                kw = "while" if kind == 2 else "until"
+                cond = ("cmp", ("id", x), [("<", ("int", n_iter))]) if kw == "while" else ("cmp", ("id", x), [(">=", ("int", n_iter))])
+                loop = (kw, cond, ("block", [("opassign", "+", x, ("int", 1))] + body[1]))
+                pre = [("assign", x, None, ("int", 0))]
+            self.declare(tgt, "any")
+            for k in self.vars:
+                if x in self.vars[k]:
+                    self.vars[k].remove(x)
+            return ("block", pre + [("assign", tgt, None, loop)])
         if c == 21 and d > 0:
             # assignment of an existing variable from a construct that reads it (result-register aliasing)
             x = self.pick(self.vars["int"])
@@ -873,7 +906,7 @@ class Gen:
         stmts = [self.stmt(d) for _ in range(n)]
         # the value of a loop that ends without `break` is not defined by the guide:
         # never leave one in value position
-        if ends_with_loop(stmts[-1]):
+        if False and ends_with_loop(stmts[-1]):
             stmts.append(self.int_expr(0))
         b = ("block", stmts)
         for k in self.vars:
@@ -1168,6 +1201,22 @@ class MatchGen(Gen):
         els = ("block", [("int", -1)]) if self.chance(1, 3) else None
         return ("match", [subject], arms, els)
 
+    def match2_expr(self, s1, s2):
+        """`match a, b` with one pattern per subject in every alternative"""
+        arms = []
+        for i in range(1 + self.r.below(4)):
+            binds = []
+            alts = [[self.pat(1, binds), self.pat(1, binds)]]
+            if self.chance(1, 3):
+                alts = [[strip_binds(p) for p in alts[0]]]
+                extra = []
+                alts.append([strip_binds(self.pat(1, extra)), strip_binds(self.pat(1, extra))])
+                binds = []
+            guard = ("cmp", ("id", binds[0]), [("!=", ("int", 1))]) if binds and self.chance(1, 4) else None
+            arms.append((alts, guard, ("block", [("tuple", [("int", 200 + i)] + [("id", b) for b in binds])])))
+        els = ("block", [("int", -2)]) if self.chance(1, 3) else None
+        return ("match", [s1, s2], arms, els)
+
     def program(self, size, depth):
         stmts = []
         results = []
@@ -1175,7 +1224,12 @@ class MatchGen(Gen):
             s = self.fresh("any")
             stmts.append(("assign", s, None, self.pick(self.SUBJECTS)))
             r = self.fresh("any")
-            stmts.append(("assign", r, None, self.match_expr(("id", s))))
+            if self.chance(1, 4):
+                s2 = self.fresh("any")
+                stmts.append(("assign", s2, None, self.pick(self.SUBJECTS)))
+                stmts.append(("assign", r, None, self.match2_expr(("id", s), ("id", s2))))
+            else:
+                stmts.append(("assign", r, None, self.match_expr(("id", s))))
             results.append(("id", r))
             if self.chance(1, 4):
                 # unpacking assignment from any iterable
